@@ -343,7 +343,7 @@ impl TypeChecker {
         // Small edge case: the primitives are already in the typechecker, so we
         // skip them, but we should override the documentation.
         if let Some(other) =
-            self.type_info.scope_graph.resolve_name(scope, &ident, true)
+            self.type_info.scope_graph.resolve_name(scope, &ident, false)
             && let DeclarationKind::Type(TypeOrStub::Type(
                 TypeDefinition::Primitive(_) | TypeDefinition::List(_),
             )) = other.kind
